@@ -144,10 +144,12 @@ prop("C08",
                                 types=list(range(0, 256, 5))),
      mc=lambda tier: [mc_pair(["openLo", "ka", "fault"], conns=1, msgs=3)],
      nontrivial=lambda s, r: "hdr" in s.get("tags", ()),
+     pure=["deframe"],
      rule="headers (16 marker positions x 2 values, boundary lengths, types) x state x direction x preceding messages x "
           "segmentation, end-to-end; the NOTIFICATION on the wire must be byte-exact")
 
 prop("C02",
+     pure=["openval"],
      scripts=lambda tier, rnd: S.open_cases(rnd, limit_per_cfg=45, random_bodies=4) if tier == "quick" else
      S.open_cases(rnd, random_bodies=60),
      mc=lambda tier: [mc_pair(["openLo", "openBad", "ka"], conns=1, msgs=3)],
@@ -156,6 +158,7 @@ prop("C02",
           "end-to-end through OpenSent; accepted iff Open!Acceptable, refusal NOTIFICATION must satisfy Open!Applies")
 
 prop("C14",
+     pure=["openenc"],
      scripts=lambda tier, rnd: S.open_encode(rnd, 20 if tier == "quick" else 400),
      mc=lambda tier: [mc_pair(["openLo", "ka"], conns=1, msgs=2)],
      nontrivial=lambda s, r: True,
@@ -170,6 +173,7 @@ prop("C13",
           "sees no byte and no callback")
 
 prop("C20",
+     pure=["registry"],
      scripts=lambda tier, rnd: S.registry(rnd, 60 if tier == "quick" else 600),
      mc=lambda tier: [mc_pair(["openLo", "ka"], conns=1, msgs=2)],
      nontrivial=lambda s, r: sum(1 for e in syscheck.events_of(r) if e["e"] == "ret") >= 3,
@@ -177,6 +181,7 @@ prop("C20",
           "during and after Serve; every return value must be the one Server's specification gives")
 
 prop("C05",
+     pure=["big", "deframe", "prefix"],
      scripts=lambda tier, rnd: S.fuzz(rnd, 400 if tier == "thorough" else 50),
      mc=lambda tier: [mc_pair(["openLo", "ka", "fault", "notif"], conns=2, msgs=2)],
      nontrivial=lambda s, r: True,
